@@ -164,6 +164,25 @@ def q_cif_data(c, A, ctx):
     return Crystal.from_cif_data(dict(data), titl=name)
 
 
+def q_gulp(c, A, ctx):
+    # exporters that live in the format modules rather than on Crystal
+    from chmpy.fmt.gulp import crystal_to_gulp_input
+
+    return crystal_to_gulp_input(c)
+
+
+def q_crystal17(c, A, ctx):
+    from chmpy.fmt.crystal17 import to_crystal17_input
+
+    return to_crystal17_input(c)
+
+
+def q_turbomole(c, A, ctx):
+    from chmpy.fmt.xtb import crystal_to_turbomole_string
+
+    return crystal_to_turbomole_string(c)
+
+
 def q_poscar(c, A, ctx):
     return c.to_poscar_string()
 
@@ -315,6 +334,7 @@ KW_QUERIES = {
 }
 # queries that may be asked of a keyword crystal (they never build the bond graph with default arguments)
 KW_SAFE = ["uc_atoms", "slab", "air", "asur", "density", "res", "cartsym", "repr", "accessors", "cif", "cif_data",
+           "gulp", "crystal17", "turbomole", "cif_twin",
            "poscar", "sl_cif", "sl_res", "sl_poscar", "sl_contcar"]  # fmt: skip
 
 
@@ -347,6 +367,12 @@ QUERIES = {
     "cif": (q_cif, "X"),
     "cif_data": (q_cif_data, "X"),
     "poscar": (q_poscar, "X"),
+    # judged by the engine itself: the CIF text of a CIF-born crystal against
+    # a twin loaded from the same source and taken through the same state changes only
+    "cif_twin": (None, "X"),
+    "gulp": (q_gulp, "X"),
+    "crystal17": (q_crystal17, "X"),
+    "turbomole": (q_turbomole, "X"),
     "sl_cif": (q_sl_cif, "X"),
     "sl_res": (q_sl_res, "X"),
     "sl_poscar": (q_sl_poscar, "X"),
@@ -403,7 +429,13 @@ def m_flip3(c, A, ctx):
     _flip(c, 3)
 
 
-MUTATORS = {"toH": m_toH, "toR": m_toR, "normH": m_normH, "toX": m_toX, "flip2": m_flip2, "flip3": m_flip3}
+def m_normH_tol(c, A, ctx):
+    # the state-changing operation with its own, non-default argument
+    c.normalize_hydrogen_bondlengths(bond_tolerance=0.9)
+
+
+MUTATORS = {"toH": m_toH, "toR": m_toR, "normH": m_normH, "toX": m_toX, "flip2": m_flip2, "flip3": m_flip3,
+            "normH_tol": m_normH_tol}
 
 
 # ------------------------------------------------ operations meant to raise
@@ -458,9 +490,16 @@ def derive_supercell(c):
     return c.as_P1_supercell((2, 1, 1))
 
 
+def derive_from_molecule(c):
+    # an answer of one crystal (a molecule it handed out) goes into the
+    # constructor of another crystal
+    return Crystal.from_molecule(c.symmetry_unique_molecules()[0])
+
+
 FORKS = {"deepcopy": fork_deepcopy, "pickle": fork_pickle}
 # derived handles: new crystals computed from a handle (different state allowed)
-DERIVES = {"derive_P1": derive_P1, "derive_cif": derive_cif, "derive_res": derive_res, "derive_supercell": derive_supercell}
+DERIVES = {"derive_P1": derive_P1, "derive_cif": derive_cif, "derive_res": derive_res, "derive_supercell": derive_supercell,
+           "derive_from_molecule": derive_from_molecule}
 
 WRITE_FAULT_TARGETS = {"cif": "f.cif", "res": "f.res", "poscar": "POSCAR"}
 
